@@ -100,27 +100,46 @@ pub fn run_cli(sc: &Scratch, args: &[&str]) -> CliOut {
 }
 
 pub fn run_cli_in(sc: &Scratch, cwd: &Path, args: &[&str]) -> CliOut {
+    run_cli_with(sc, cwd, args, false)
+}
+
+/// Standard output connected to /dev/full: every write to it fails with ENOSPC.
+pub fn run_cli_stdout_unwritable(sc: &Scratch, args: &[&str]) -> CliOut {
+    run_cli_with(sc, &sc.dir, args, true)
+}
+
+fn run_cli_with(sc: &Scratch, cwd: &Path, args: &[&str], stdout_full: bool) -> CliOut {
     if !cli_available() {
         inconclusive(&format!("{} not built", cli()));
     }
+    let out = if stdout_full {
+        match std::fs::OpenOptions::new().write(true).open("/dev/full") {
+            Ok(f) => Stdio::from(f),
+            Err(e) => inconclusive(&format!("cannot open /dev/full: {e}")),
+        }
+    } else {
+        Stdio::piped()
+    };
     let mut child = match Command::new(cli())
         .args(args)
         .current_dir(cwd)
         .env("HOME", sc.home())
         .env_remove("RUST_BACKTRACE")
         .stdin(Stdio::null())
-        .stdout(Stdio::piped())
+        .stdout(out)
         .stderr(Stdio::piped())
         .spawn()
     {
         Ok(c) => c,
         Err(e) => inconclusive(&format!("cannot spawn cgt-tool: {e}")),
     };
-    let mut so = child.stdout.take().expect("stdout");
+    let so = child.stdout.take();
     let mut se = child.stderr.take().expect("stderr");
     let t1 = std::thread::spawn(move || {
         let mut b = vec![];
-        let _ = so.read_to_end(&mut b);
+        if let Some(mut so) = so {
+            let _ = so.read_to_end(&mut b);
+        }
         b
     });
     let t2 = std::thread::spawn(move || {
